@@ -540,3 +540,25 @@ func (c *Ctx) fieldVar(rel, spec string) *types.Var {
 	}
 	return nil
 }
+
+// LockAnalyses runs the lockset analysis over a package without recording
+// pairing obligations (for rules that only need HeldAt).
+func (c *Ctx) LockAnalyses(rel string, tokens []string) map[string][]*LockAnalysis {
+	p := c.pkg(rel)
+	if p == nil {
+		return nil
+	}
+	la := &lockAnalyzer{c: c, pkg: p, tokens: map[*types.Var]bool{}}
+	for _, t := range tokens {
+		if v := c.fieldVar(rel, t); v != nil {
+			la.tokens[v] = true
+		}
+	}
+	all := map[string][]*LockAnalysis{}
+	for _, fn := range c.Funcs(rel) {
+		if fn.Decl != nil {
+			all[fn.Name] = la.analyzeFunc(fn.Decl, fn.Name)
+		}
+	}
+	return all
+}
